@@ -392,7 +392,7 @@ func panicKindOf(ins ssa.Instruction, kind string) bool {
 	case *ssa.BinOp:
 		return kind == "divzero" && (x.Op == token.QUO || x.Op == token.REM)
 	case *ssa.Call:
-		return kind == "call" || kind == "nilinvoke" || kind == "requires"
+		return kind == "call" || kind == "nilinvoke" || kind == "requires" || kind == "nilderef"
 	}
 	return false
 }
